@@ -6,16 +6,20 @@
 (* one always is.  Every step carries the properties the client has asked for at that point (want): *)
 (* harness/drv_image.c builds the freshly created replica from them.                                *)
 (* Used with -generate (random histories) and breadth-first (all histories of a small depth).       *)
+(* With Focus = TRUE only histories that keep calling the SAME setter, with a rendering before the  *)
+(* first call and after every call, are produced: set(v1); render; set(v2); render for all pairs    *)
+(* of values of every setter -- the histories on which an early-return guard that compares too      *)
+(* little shows.                                                                                    *)
 EXTENDS Image, Json
 
-CONSTANTS Depth, Types
+CONSTANTS Depth, Types, Focus
 
 VARIABLES P, hist, name
 
 Roles(type) == IF type = "bits" THEN {"src", "mask", "dst"} ELSE {"src", "mask"}
 
 GenInit ==
-    /\ \E t \in Types, r0 \in 0..1 : \E role \in Roles(t) :
+    /\ \E t \in Types, r0 \in (IF Focus THEN {1} ELSE 0..1) : \E role \in Roles(t) :
           /\ P = (IF r0 = 1 THEN ValidateP(PropInit(t)) ELSE PropInit(t))
           /\ hist = <<[op |-> "config", type |-> t, role |-> role, r0 |-> r0]>>
     /\ name = ""
@@ -25,11 +29,12 @@ Steps == Len(hist) - 1
 (* two-phase steps: first the setter (uniformly), then its value and whether a rendering follows *)
 Choose == /\ name = "" /\ Steps < Depth
           /\ name' \in {c.j : c \in SetCalls(P.type)}
+          /\ (Focus /\ Steps >= 1) => name' = hist[2].j
           /\ UNCHANGED <<P, hist>>
 
 Do == /\ name # "" /\ name' = ""
       /\ \E c \in {x \in SetCalls(P.type) : x.j = name}, r \in 0..1 :
-            /\ (Steps + 1 = Depth) => r = 1
+            /\ (Steps + 1 = Depth \/ Focus) => r = 1
             /\ \E Q \in PropStep(P, c) :
                   /\ P' = (IF r = 1 THEN ValidateP(Q) ELSE Q)
                   /\ hist' = Append(hist, [op |-> "set", j |-> c.j, v |-> c.v, r |-> r, want |-> Q.want])
